@@ -327,8 +327,11 @@ def gen_guided(ctx, count):
                         # somebody else's note, aimed at that user's own marks
                         sid = rng.choice([1, 5, 6, 7])
                         rd, rc, last = model_marks(v, sc.sessions[sid])
-                flt = "F1" if rng.random() < 0.05 else "N"
-                ops = [(flt, "note", [sid, what, aim(b, rd, rc, last, rng)])]
+                seq = aim(b, rd, rc, last, rng)
+                # a failing store call under a note the MODEL accepts: nothing may change, nothing may be relayed
+                accepted = v is not None and note_class(v, sid, sc.sessions[sid], what, seq)[0] == "valid"
+                flt = "F1" if (accepted and not first and rng.random() < 0.2) else "N"
+                ops = [(flt, "note", [sid, what, seq])]
                 if rng.random() < 0.25:
                     ops.append(ops[0])      # the same note again: a duplicate
                 return ops
